@@ -190,6 +190,12 @@ pub fn run(tier: Tier) -> i32 {
             ctx.add(&ctx.nontrivial, 1);
         }
         for (sig, d) in v {
+            // a builder that refuses a remote key the pattern does not pre-share asks for nothing the property
+            // forbids: only the plain configurations must build
+            if sig == "honest configuration failed to build" && matches!(x, Extra::TrueKey | Extra::OtherKey) {
+                ctx.count("surplus remote key refused at build time (not judged)", 1);
+                continue;
+            }
             ctx.violation(sig, d, sess::case_json(&cfg, &ops));
         }
     });
